@@ -17,6 +17,42 @@ for sid in sorted(os.listdir(os.path.join(ROOT, 'seeded'))):
     rows.append('| %s | %s | %s | %s |' % (sid, cut(m.get('summary'), 230), cut(m.get('needs_to_manifest'), 160),
                                          (', '.join(d) if d else '**not detected**') + ((' - ' + cut(note, 200)) if note else '')))
 table = '\n'.join(rows) + '\n\n%d of %d seeded changes are detected by the quick tier of at least one registered check.' % (det, n)
+DESCR = {
+ 'C01': ('V', 'JsonValue universe x option vectors x json / ojson / wjson / wojson; Trace_C01 re-lexes every produced text with the JsonText PDA, requires ValueOf(text) = value, the option post-conditions (escapes, line length, indentation), and byte-identical re-serialisation'),
+ 'C02': ('G', 'JsonText: every viable prefix <= 6 chars over 27 classes, token sequences, deep nests, whole-member objects (duplicate keys at every position), extra tokens (surrogate-pair corners, low-byte trap characters) x {comments, trailing comma, depth limits} x decode-option modes (lossless_number, lossless_bignum off, nan/inf strings) x 5 char + 5 wchar_t entry points'),
+ 'C03': ('G (differential)', 'the same texts x all 2^(n-1) chunk compositions x 2 push protocols, stream buffer sizes 1..n+1, cursors, read_to, staj iterators; binary: C07 byte spaces x 23 deliveries; CSV: every string <= 6 chars over 7 characters x 6 option sets x every delivery'),
+ 'C04': ('V', 'BigNat oracle; Trace_C04 validates bigint arithmetic via identities, conversions digit for digit, literal classes, round-half-even doubles, double print/parse round trips incl. every binary64 exponent x edge significands'),
+ 'C05': ('G + V', 'ApiOutcome protocol; inputs of all other generators + truncations / substitutions through every decoder / compiler entry point, a CBOR tag family (typed / multi-dimensional arrays, bignums, decimal fractions with boundary arguments), and values x option sets through 12 encoder entry points, under ASan+UBSan+LSan with a CPU-time watchdog (non-termination); sampled outcome traces validated by Trace_C05'),
+ 'C06': ('V', 'BinModel universe x 4 formats x routes; Trace_C06: the reference decoder reads the output completely to the documented image and the library reads it back; stringref family; long-length family (BinHeads: header forms at 2^8 / 2^15 / 2^16)'),
+ 'C07': ('G', 'Cbor / Msgpack / Ubjson / Bson reference decoders: every byte string with 2 exhaustive leading bytes + representative later bytes, token sequences, length-boundary representatives, long-length header forms (exact / short / bad length field); verdict and value predicted'),
+ 'C08': ('V', 'Events PDA: every complete event sequence <= MaxEv x 5 encoders (declared lengths respected / violated); Trace_C08 re-decodes the output with the reference decoders / JsonText; transcoding of all accepted C07 inputs'),
+ 'C09': ('G per transition + V', 'Container: every edge reachable within MaxHist operations (VIEW + ACTION_CONSTRAINT), hinted overloads at every hint position, json and ojson; ValueLaws over 54 x 54 descriptors (compare is a total order consistent with ==, hash, swap)'),
+ 'C10': ('G', 'Limits: 20 opening paths x limits x depths around the limit; encoders fed by events and through dump / encode_X, also after closed siblings; UBJSON max_items; claimed lengths vs an allocation meter for json and typed decode; deep values on a 1 MiB stack; sibling families'),
+ 'C11': ('G', 'JsonSchema validator (validated against the official suite and python-jsonschema on the whole space): grammar-built schemas per dialect incl. annotation scoping and dependency maps x steered instances'),
+ 'C12': ('G', 'JsonPath evaluator (validated against the jsoncons jsonpath reference data): segments, slices, filters (and, where the functions family is in, built-in functions and arithmetic) x documents x notations x result options x 7 entry points'),
+ 'C13': ('G', 'Jmespath evaluator (validated against the JMESPath compliance corpus): expression trees x documents, functions x typed argument tuples, slices, sort stability'),
+ 'C14': ('G', 'JsonPointer: all pointer strings <= n over 7 chars; (doc, tokens, op, create_if_missing); flatten / unflatten'),
+ 'C15': ('G + model + V', 'JsonPatch: every op sequence <= MaxOps extended while it succeeds (failure at every position); MC_C15impl refinement of the undo-log loop; diff law'),
+ 'C16': ('G + V', 'MergePatch: all (target, patch) pairs of the depth-2 universe; from_diff traces validated by Trace_C16'),
+ 'C17': ('G', 'Reflect: 43 types x values (4 formats, 3 routes) and x fault-derived documents (verdict predicted)'),
+ 'C18': ('G + V', 'Csv (RFC 4180 + jsoncons options): options x tables; TOON: round-trip law over trees, strings / keys in every position, and primitives (null, booleans, integers, decimals) in every position'),
+ 'C19': ('V', 'AllocLedger: fork per (scenario, n): the n-th allocation fails; Trace_C19 requires ledger balance, no double free, size-matched deallocation, strong / basic guarantee per scenario'),
+ 'C20': ('model + V', 'SharedReaders model-checked; TSan harness with TLC-generated thread / stream / skew assignments over built-in operations, a curated artefact pool (every format, every JSONPath / JMESPath built-in, all drafts) and a pool sampled from the C11 / C12 cases; Trace_C20'),
+}
+def human(n):
+    n = int(n or 0)
+    return '%.1f M' % (n / 1e6) if n >= 1e6 else ('%d k' % round(n / 1e3) if n >= 10000 else str(n))
+srows = ['| Id | Binding | Spec -> what TLC enumerates / what is bound (quick tier) | cases / evaluations | quick wall (cached cases) |', '|---|---|---|---|---|']
+for pid in sorted(DESCR):
+    ev = {}
+    try:
+        ev = json.load(open(os.path.join(ROOT, 'evidence', pid + '.json')))
+    except Exception:
+        pass
+    cov = ev.get('coverage', {})
+    srows.append('| %s | %s | %s | %s / %s | %s s (%s tier, %s known findings matched) |' % (pid, DESCR[pid][0], DESCR[pid][1], human(cov.get('traces_validated_against_impl')), human(cov.get('evaluations')),
+                 int(ev.get('wall_s', 0) or 0), ev.get('tier', '?'), ev.get('known_findings_matched', 0)))
+stable = '\n'.join(srows)
 kf = [json.loads(l) for l in open(os.path.join(ROOT, 'known_findings.jsonl')) if l.strip() and not l.startswith('#')]
 def cell(t, k=260):
     t = re.sub(r'\s+', ' ', str(t or '')).replace('|', '/')
@@ -30,7 +66,7 @@ for prop in sorted({e['property'] for e in known}):
     es = [e for e in known if e['property'] == prop]
     klist.append('* **%s (%d)**' % (prop, len(es)))
     klist += ['  * ' + cell(e['what'], 300) for e in es]
-ab = open(os.path.join(ROOT, 'tools', 'design_asbuilt.md')).read().replace('@SEEDED_TABLE@', table).replace('@FIXED_TABLE@', ftable).replace('@KNOWN_LIST@', '\n'.join(klist))
+ab = open(os.path.join(ROOT, 'tools', 'design_asbuilt.md')).read().replace('@SEEDED_TABLE@', table).replace('@FIXED_TABLE@', ftable).replace('@KNOWN_LIST@', '\n'.join(klist)).replace('@STATUS_TABLE@', stable)
 p = os.path.join(ROOT, 'DESIGN.md')
 s = open(p).read()
 a = s.index('## 11. As built')
